@@ -388,7 +388,7 @@ def r08_14(run, model):
                        "function name wherever a variable mentions it, not only in callee position - a top-level function that is only "
                        "let-bound, passed or stored must not be pruned while its uses stay")
     DCE = "crates/compiler/src/go/dce.rs"
-    f = model.fn("collect_called_in_expr", DCE)
+    f = model.fn_or_role("collect_called_in_expr", DCE, "prune_dead_functions", r"Expr::Var\b")
     ms = list(S.find(f.body, "Match"))
     if not ms:
         raise AnalysisIncomplete("collect_called_in_expr: match not found")
